@@ -305,6 +305,7 @@ class Normaliser:
     def run(self):
         self.n1_module_constants()
         self.n1b_class_constants()
+        self.n22_function_values()
         self.n9_literal_reflection()
         self.n11_split_tuple_assign()
         self.n2_stable_aliases()
@@ -331,8 +332,13 @@ class Normaliser:
         self.n17_strip_bool()
         self.n7_pure_locals()
         self.n15_elsify()
-        for tree in self.trees.values():
+        for rel, tree in self.trees.items():
             ast.fix_missing_locations(tree)
+            try:
+                compile(tree, rel, 'exec', dont_inherit=True)       # the normalised module is still a well-formed program (never executed)
+            except (SyntaxError, ValueError, TypeError) as e:
+                from .model import AnalysisError
+                raise AnalysisError(f'normalisation produced an ill-formed module {rel}: {e}')
         return self
 
     # ---- N1
@@ -921,6 +927,8 @@ class Normaliser:
             return Normaliser._pure_read(e.value, sn) and isinstance(e.slice, ast.Constant)
         if isinstance(e, ast.BinOp):
             return Normaliser._pure_read(e.left, sn) and Normaliser._pure_read(e.right, sn)
+        if isinstance(e, ast.Tuple):
+            return all(Normaliser._pure_read(v, sn) for v in e.elts)
         if isinstance(e, ast.Compare):
             return Normaliser._pure_read(e.left, sn) and all(Normaliser._pure_read(c, sn) for c in e.comparators) \
                 and not any(isinstance(o, (ast.In, ast.NotIn)) for o in e.ops)
@@ -959,6 +967,27 @@ class Normaliser:
                 body[i] = new
                 self.note('N21', f'{rel}:{fn.name}: del {ast.unparse(t)} -> .pop(...)')
                 st = new
+            # N23: L = [] ; for e in IT: L.append(F(e))   ->   L = [F(e) for e in IT]
+            if isinstance(st, ast.For) and i > 0 and isinstance(st.target, ast.Name) and not st.orelse and len(st.body) == 1 \
+                    and isinstance(st.body[0], ast.Expr) and isinstance(st.body[0].value, ast.Call) and isinstance(st.body[0].value.func, ast.Attribute) \
+                    and st.body[0].value.func.attr == 'append' and len(st.body[0].value.args) == 1 and not st.body[0].value.keywords:
+                lst = st.body[0].value.func.value
+                prev = body[i - 1]
+                if isinstance(prev, ast.Assign) and len(prev.targets) == 1 and isinstance(prev.value, ast.List) and not prev.value.elts \
+                        and ast.unparse(prev.targets[0]) == ast.unparse(lst) and isinstance(lst, (ast.Name, ast.Attribute)) \
+                        and not any(ast.unparse(x) == ast.unparse(lst) for x in ast.walk(st.body[0].value.args[0]) if isinstance(x, (ast.Name, ast.Attribute))) \
+                        and not any(ast.unparse(x) == ast.unparse(lst) for x in ast.walk(st.iter) if isinstance(x, (ast.Name, ast.Attribute))) \
+                        and not any(isinstance(x, (ast.Yield, ast.YieldFrom, ast.Await)) for x in ast.walk(st)):
+                    comp = ast.ListComp(elt=st.body[0].value.args[0], generators=[ast.comprehension(target=st.target, iter=st.iter, ifs=[], is_async=0)])
+                    new = ast.Assign(targets=[prev.targets[0]], value=comp)
+                    for x in ast.walk(new):
+                        if not hasattr(x, 'lineno'):
+                            ast.copy_location(x, st)
+                    ast.copy_location(new, st)
+                    body[i - 1:i + 1] = [new]
+                    self.note('N23', f'{rel}:{fn.name}: list built by an append loop -> comprehension')
+                    i -= 1
+                    st = new
             # N19: for e in L: if P: X = e; break  else: X = <const>   ->   X = <const> ; for ...
             if isinstance(st, ast.For) and len(st.orelse) == 1 and isinstance(st.orelse[0], ast.Assign) and len(st.orelse[0].targets) == 1 \
                     and isinstance(st.orelse[0].targets[0], ast.Name) and isinstance(st.orelse[0].value, ast.Constant) and len(st.body) == 1 \
@@ -966,7 +995,7 @@ class Normaliser:
                 x = st.orelse[0].targets[0].id
                 sets = [b for b in st.body[0].body if isinstance(b, ast.Assign) and len(b.targets) == 1 and isinstance(b.targets[0], ast.Name) and b.targets[0].id == x]
                 reads_x = any(isinstance(n, ast.Name) and n.id == x and isinstance(n.ctx, ast.Load) for n in ast.walk(st))
-                if sets and not reads_x:
+                if sets and not reads_x and not any(isinstance(n, ast.Try) for n in ast.walk(fn)):
                     init = st.orelse[0]
                     st.orelse = []
                     body.insert(i, init)
@@ -992,6 +1021,49 @@ class Normaliser:
             for sub in self._sub_blocks(st):
                 self._n19_block(fn, sub, rel)
             i += 1
+
+    # ---- N22
+    def n22_function_values(self):
+        """a private module-level function whose body is `return <expr>`, used as a value (sort key, callback): replaced by the lambda it is"""
+        funcs = {}
+        counts = {}
+        for rel, tree in self.trees.items():
+            for n in tree.body:
+                if isinstance(n, ast.FunctionDef):
+                    counts[n.name] = counts.get(n.name, 0) + 1
+                    funcs[n.name] = n
+        cands = {}
+        for name, fn in funcs.items():
+            b = body_without_doc(fn)
+            a = fn.args
+            if counts[name] == 1 and is_private(name) and name not in self.vocab and not fn.decorator_list and len(b) == 1 and isinstance(b[0], ast.Return) \
+                    and b[0].value is not None and not (a.vararg or a.kwarg or a.kwonlyargs or a.defaults or a.posonlyargs) \
+                    and not any(isinstance(x, (ast.Yield, ast.YieldFrom, ast.Await)) for x in ast.walk(b[0].value)):
+                cands[name] = fn
+        if not cands:
+            return
+        nz = self
+
+        class T(ast.NodeTransformer):
+            def visit_Call(self, node):
+                # do not touch the callee position; only argument / keyword values
+                node.args = [self.visit(a) if not (isinstance(a, ast.Name) and a.id in cands) else self.as_lambda(a) for a in node.args]
+                for k in node.keywords:
+                    k.value = self.as_lambda(k.value) if isinstance(k.value, ast.Name) and k.value.id in cands else self.visit(k.value)
+                if not (isinstance(node.func, ast.Name) and node.func.id in cands):
+                    node.func = self.visit(node.func)
+                return node
+
+            @staticmethod
+            def as_lambda(name_node):
+                fn = cands[name_node.id]
+                lam = ast.Lambda(args=copy.deepcopy(fn.args), body=copy.deepcopy(body_without_doc(fn)[0].value))
+                for x in ast.walk(lam):
+                    ast.copy_location(x, name_node)
+                nz.note('N22', f'function value {name_node.id} -> lambda')
+                return lam
+        for tree in self.trees.values():
+            T().visit(tree)
 
     # ---- N15
     def n15_elsify(self):
@@ -1461,6 +1533,8 @@ class _CopyProp:
 
     def __init__(self, name, expr, reads):
         self.name, self.expr, self.reads = name, expr, reads
+        self.subtexts = {ast.unparse(x) for x in ast.walk(expr) if isinstance(x, (ast.Subscript, ast.Attribute))}
+        self.reads_container = any(isinstance(x, ast.Subscript) for x in ast.walk(expr))
         self.count = 0
         self.left = 0       # uses that could not be replaced
 
@@ -1481,8 +1555,12 @@ class _CopyProp:
                 base = x.value
                 while isinstance(base, ast.Subscript):
                     base = base.value
-                if isinstance(base, ast.Attribute) and base.attr in self.reads:
+                # the copy denotes an object (or a value read from a container); it is invalidated by a store to a location it reads,
+                # i.e. one whose text is a sub-expression of the copied expression - not by a store *into* the object it denotes
+                if isinstance(base, ast.Attribute) and base.attr in self.reads and ast.unparse(x) in self.subtexts:
                     return True
+                if isinstance(base, ast.Name) and base.id != self.name and self.reads_container:
+                    return True         # a store through another local that may alias a container the copy reads from
         return False
 
     def _sub(self, node):
@@ -1542,7 +1620,8 @@ class _Reflect(ast.NodeTransformer):
         self.generic_visit(node)
         c = node.value
         if isinstance(c, ast.Call) and isinstance(c.func, ast.Name) and c.func.id == 'setattr' and len(c.args) == 3 and not c.keywords \
-                and isinstance(c.args[1], ast.Constant) and isinstance(c.args[1].value, str) and c.args[1].value.isidentifier():
+                and isinstance(c.args[1], ast.Constant) and isinstance(c.args[1].value, str) and c.args[1].value.isidentifier() \
+                and not (c.args[1].value.startswith('__') and not c.args[1].value.endswith('__')):
             new = ast.Assign(targets=[ast.Attribute(value=c.args[0], attr=c.args[1].value, ctx=ast.Store())], value=c.args[2])
             ast.copy_location(new, node)
             ast.copy_location(new.targets[0], node)
@@ -1568,7 +1647,8 @@ class _Reflect(ast.NodeTransformer):
         self.generic_visit(node)
         f = node.func
         if isinstance(f, ast.Name) and f.id == 'getattr' and len(node.args) == 2 and not node.keywords \
-                and isinstance(node.args[1], ast.Constant) and isinstance(node.args[1].value, str) and node.args[1].value.isidentifier():
+                and isinstance(node.args[1], ast.Constant) and isinstance(node.args[1].value, str) and node.args[1].value.isidentifier() \
+                and not (node.args[1].value.startswith('__') and not node.args[1].value.endswith('__')):
             new = ast.Attribute(value=node.args[0], attr=node.args[1].value, ctx=ast.Load())
             self.nz.note('N9', f'{self.rel}: getattr(…, {node.args[1].value!r}) -> attribute load')
             return ast.copy_location(new, node)
